@@ -75,7 +75,12 @@ def op_strategy(draw):
         return ['newclass', draw(st.lists(IDX, max_size=3)),
                 deco, draw(args(nested=(deco != 'only'), allow_c=True,
                                 lo=1)) if deco else [],
-                {'slots': draw(st.integers(0, 3)) == 0}, chk]
+                {'slots': draw(st.integers(0, 3)) == 0,
+                 # also list an ancestor of the first base as a direct base
+                 # (class C(B, A) with B(A)): legal, and the specification
+                 # of C must keep A when B stops inheriting (seed C01e)
+                 'redund': draw(st.integers(0, 3)) == 0,
+                 'rpick': draw(st.integers(0, 5))}, chk]
     if k == 'newinst':
         return ['newinst', draw(IDX), chk]
     if k == 'classImplements':
@@ -400,6 +405,24 @@ def run_case(case, cfg, out):
                     b = b % len(rclasses)
                     if b not in bidx:
                         bidx.append(b)
+            if len(op) > 5 and op[4].get('redund') and rclasses:
+                derived = [x for x in range(len(rclasses))
+                           if M.classes[x]['bases']]
+                if derived and (not bidx or
+                                not M.classes[bidx[0]]['bases']):
+                    # start from a class that has ancestors
+                    bidx = [derived[op[4].get('rpick', 0) % len(derived)]]
+            if len(op) > 5 and op[4].get('redund') and bidx:
+                anc, stack = [], list(M.classes[bidx[0]]['bases'])
+                while stack:
+                    x = stack.pop(0)
+                    if x not in anc:
+                        anc.append(x)
+                        stack.extend(M.classes[x]['bases'])
+                anc = [x for x in anc if x not in bidx]
+                if anc:
+                    bidx.append(anc[op[4].get('rpick', 0) % len(anc)])
+                    out.tag('redundant_direct_base')
             # some classes have no instance __dict__, only a slot for
             # the instance declaration
             body = {}
